@@ -145,6 +145,7 @@ template <typename T>
 static void bctor_t(unsigned w, uint64_t req, uint64_t pct)
 {
   std::cout << "bctor " << w << " " << req << " " << pct << " => ";
+  std::cout.flush();   // a sanitizer abort inside the constructor must leave the op visible
   ++g_lines; ++g_kind[3];
   try
   {
@@ -203,6 +204,7 @@ struct URunner
   void pw(uint64_t n)
   {
     uint64_t const before = q->producer_capacity();
+    std::cout.flush();
     std::string res;
     try
     {
@@ -278,6 +280,7 @@ struct TRunner
   }
   void push(uint64_t v)
   {
+    std::cout << "# next: tpush " << v << std::endl;   // flushed: visible if the real code aborts inside the operation
     TransitEvent* te = b->back();
     te->timestamp = v;
     b->push_back();
